@@ -13,7 +13,7 @@ UNITS += [
        entry="h_info_tagcompare", defines=["VERIF_TAGCMP_BOUNDED"], unwind=6, kind="B", reach=2,
        bound="converse direction (all equal => 0) expanded for n <= 4",
        note="tagcompare converse"),
-  Unit("info_query", ["C16", "C13"], "lib/info.c", enforce=None, kind="B", unwind=6, leak=True, reach=2, timeout=900,
+  Unit("info_query", ["C16", "C13"], "lib/info.c", enforce=None, kind="B", unwind=6, leak=True, reach=2, timeout=900, tier="thorough",
        bound="<= 3 comments of <= 4 characters, tag <= 2 characters; all byte values symbolic",
        note="query / query_count against an independent specification; fulltag freed; comment_clear releases everything, idempotent"),
 ]
